@@ -38,6 +38,11 @@ pub open spec fn leading_between(b: Seq<u8>, lo: int, hi: int) -> nat decreases 
 
 '''
 
+LC_IS = r'''
+pub open spec fn lc_is(lc: LineColumn, b: Seq<u8>, offset: int) -> bool {
+    lc.line == 1 + terminators_before(b, offset) && lc.column == 1 + leading_between(b, line_start(b, offset), offset)
+}
+'''
 INV_COMMON = "bytes@ == B(self), offset <= bytes@.len(), bytes@.len() < usize::MAX"
 
 UNIT = {
@@ -45,7 +50,7 @@ UNIT = {
     "properties": ["C11"],
     "outer": OUTER,
     "parts": [
-        PRELUDE,
+        PRELUDE, LC_IS,
         dict(file=PARSER, kind="fn", name="get_line_column", container="SourceFile", container_name="SourceFile", wrap="impl SourceFile",
              n_loops=2,
              clauses=[
@@ -64,6 +69,14 @@ UNIT = {
                      ("frame", INV_COMMON + ", line_start <= j <= offset"),
                      ("column_count", "column == 1 + leading_between(bytes@, line_start as int, j as int), column <= 1 + j"),
                  ], decreases="offset - j"),
+             ],
+             props=["C11"]),
+        dict(file=PARSER, kind="fn", name="get_line_column_range", container="SourceFile", container_name="SourceFile", wrap="impl SourceFile",
+             rewrites=[("range: Range<usize>", "range: core::ops::Range<usize>", 1), ("Option<Range<LineColumn>>", "Option<core::ops::Range<LineColumn>>", 1)],
+             clauses=[
+                 ("requires", "text_shorter_than_usize_max", "B(self).len() < usize::MAX"),
+                 ("ensures", "none_iff_either_out_of_bounds", "r is None <==> (range.start > B(self).len() || range.end > B(self).len())"),
+                 ("ensures", "both_ends_by_the_same_rule", "r is Some ==> lc_is(r->0.start, B(self), range.start as int) && lc_is(r->0.end, B(self), range.end as int)"),
              ],
              props=["C11"]),
         r'''
